@@ -194,13 +194,14 @@ def getYear : Bytes → Option (Nat × Bytes)
     then some (digitVal a * 1000 + digitVal b * 100 + digitVal c * 10 + digitVal d, rest) else none
   | _ => none
 
-/-- the fractional second: `.` or `,` and three digits; the parser also lets a `+` stand for the first digit
-    (Go's `atoi` of the fraction accepts a sign) -/
+/-- the fractional second: `.` or `,` and three digits; Go reads them with its internal `atoi`, which accepts a
+    sign: a `+` may stand for the first digit, and so may a `-` as long as the value is not negative (`-00`) -/
 def getMillis : Bytes → Option Nat
   | [p, a, b, c] =>
     if p = 46 || p = 44 then
       (if isDigit a && isDigit b && isDigit c then some (digitVal a * 100 + digitVal b * 10 + digitVal c)
        else if a = 43 && isDigit b && isDigit c then some (digitVal b * 10 + digitVal c)
+       else if a = 45 && b = 48 && c = 48 then some 0
        else none)
     else none
   | _ => none
